@@ -167,6 +167,14 @@ def adaptive(
     )
 
 
+def _scaled(base_s: float, growth: float, attempt: int) -> float:
+    """base_s * growth**attempt, saturating instead of raising for huge attempts."""
+    try:
+        return base_s * (growth**attempt)
+    except OverflowError:
+        return math.inf if base_s > 0 else 0.0
+
+
 def decorrelated_jitter(base_s: float = 0.25, max_s: float = 30.0) -> StrategyFn:
     """
     Decorrelated jitter backoff.
@@ -192,8 +200,8 @@ def equal_jitter(base_s: float = 0.25, max_s: float = 30.0) -> StrategyFn:
     """
 
     def f(attempt: int, klass: ErrorClass, prev_sleep: float | None) -> float:
-        cap = min(max_s, base_s * (2.0**attempt))
-        return cap / 2.0 + random.uniform(0.0, cap / 2.0)
+        cap = min(max_s, _scaled(base_s, 2.0, attempt))
+        return min(cap, cap / 2.0 + random.uniform(0.0, cap / 2.0))
 
     return f
 
@@ -207,7 +215,7 @@ def token_backoff(base_s: float = 0.25, max_s: float = 20.0) -> StrategyFn:
     """
 
     def f(attempt: int, klass: ErrorClass, prev_sleep: float | None) -> float:
-        cap = min(max_s, base_s * (1.5**attempt))
+        cap = min(max_s, _scaled(base_s, 1.5, attempt))
         return random.uniform(cap / 2.0, cap)
 
     return f
